@@ -94,9 +94,54 @@ type Case struct {
 	// err family, call form only: the failing call f(args) sits inside an operator expression:
 	//   not: !f(args)   notparen: !(f(args))   or: !X || f(args)   and: !X && f(args)
 	// X (WrapX) is a bool path chosen so that the right operand has to be evaluated.
+	// expr / neg family: the expression is evaluated inside nested v-for scopes (outermost first)
+	// that rebind a root variable: the reference evaluator resolves innermost-first.
+	Scope []Bind `json:"scope,omitempty"`
 	Wrap  string `json:"wrap,omitempty"`
 	WrapX string `json:"wrapx,omitempty"`
 	Why   string `json:"why,omitempty"` // err family: unknown | arity | conversion | returned
+}
+
+// Bind is one `v-for="Var in List"` scope; List is a root variable (see scopeLists).
+type Bind struct {
+	Var  string `json:"var"`
+	List string `json:"list"`
+}
+
+// iteration is one combination of loop elements: the model environment (innermost binding
+// wins) and a note for messages.
+type iteration struct {
+	env  map[string]any
+	note string
+}
+
+// iterations lists the combinations of the nested loops in rendering order (outer-major).
+func (c Case) iterations(root map[string]any) []iteration {
+	its := []iteration{{env: root}}
+	for _, b := range c.Scope {
+		l, _ := root[b.List].([]any)
+		var next []iteration
+		for _, it := range its {
+			for k, el := range l {
+				e := make(map[string]any, len(it.env)+1)
+				for n, v := range it.env {
+					e[n] = v
+				}
+				e[b.Var] = el
+				next = append(next, iteration{env: e, note: it.note + fmt.Sprintf(" inside v-for=\"%s in %s\" at element %d (%s=%#v, root %s=%#v)", b.Var, b.List, k, b.Var, el, b.Var, root[b.Var])})
+			}
+		}
+		its = next
+	}
+	return its
+}
+
+func (c Case) scopeWrap() (open, close string) {
+	for _, b := range c.Scope {
+		open += `<div v-for="` + b.Var + ` in ` + b.List + `">`
+		close += "</div>"
+	}
+	return
 }
 
 // Text is the expression source placed into the template.
@@ -160,37 +205,66 @@ type obs struct {
 
 // engine is one vuego instance, fresh per case and shared by the renders of that case (so the
 // documented program cache of the expression evaluator is exercised across expressions).
-type engine struct{ t vuego.Template }
+type engine struct {
+	t           vuego.Template
+	open, close string              // enclosing scopes of the position template
+	idx, n      int                 // which of the n rendered copies of the position is observed
+	cache       map[string]rendered // a template is rendered once per engine (all copies share it)
+}
+
+type rendered struct {
+	out  string
+	err  error
+	ns   []*hx.N
+	perr error
+}
 
 func newEngine(env map[string]any, text string) *engine {
-	return &engine{t: vuego.New(vuego.WithFuncs(funcMapFor(text))).Fill(env)}
+	return &engine{t: vuego.New(vuego.WithFuncs(funcMapFor(text))).Fill(env), n: 1}
 }
 
 func (e *engine) render(tpl string) (string, error) {
+	r := e.renderParsed(tpl)
+	return r.out, r.err
+}
+
+func (e *engine) renderParsed(tpl string) rendered {
+	if r, ok := e.cache[tpl]; ok {
+		return r
+	}
 	var b bytes.Buffer
-	err := e.t.RenderString(context.Background(), &b, tpl)
-	return b.String(), err
+	r := rendered{}
+	r.err = e.t.RenderString(context.Background(), &b, tpl)
+	r.out = b.String()
+	if r.err == nil {
+		r.ns, r.perr = hx.Frag(r.out, hx.Collapse)
+	}
+	if e.cache == nil {
+		e.cache = map[string]rendered{}
+	}
+	e.cache[tpl] = r
+	return r
 }
 
 func observe(eng *engine, pos, e string) (obs, error) {
-	out, err := eng.render(templateFor(pos, e))
+	r := eng.renderParsed(eng.open + templateFor(pos, e) + eng.close)
+	out, err, ns, perr := r.out, r.err, r.ns, r.perr
 	if err != nil {
 		return obs{err: err}, nil
 	}
-	ns, perr := hx.Frag(out, hx.Collapse)
 	if perr != nil {
 		return obs{}, fmt.Errorf("output does not parse: %v", perr)
 	}
 	tag := map[string]string{posInterp: "i", posSAttr: "i", posBound: "b", posIf: "p", posElseIf: "p", posShow: "s"}[pos]
 	els := hx.Find(ns, func(n *hx.N) bool { return n.Tag == tag })
-	if len(els) != 1 {
-		return obs{}, fmt.Errorf("%s: expected exactly one <%s> in the output, got %d: %q", pos, tag, len(els), out)
+	if len(els) != eng.n {
+		return obs{}, fmt.Errorf("%s: expected %d <%s> in the output, got %d: %q", pos, eng.n, tag, len(els), out)
 	}
-	el := els[0]
+	el := els[eng.idx]
 	switch pos {
 	case posInterp:
 		// exact text (inner blanks matter for values such as JSON); only the ends are trimmed
-		return obs{text: strings.TrimSpace(rawText(out, "i")), present: true}, nil
+		return obs{text: strings.TrimSpace(rawText(out, "i", eng.idx)), present: true}, nil
 	case posSAttr:
 		t, ok := el.Attrs["title"]
 		if !ok {
@@ -252,8 +326,8 @@ func sameValue(got string, want any) bool {
 	return strings.TrimSpace(got) == fmt.Sprint(want)
 }
 
-// rawText returns the concatenated text below the first <tag> of the output, unnormalised.
-func rawText(out, tag string) string {
+// rawText returns the concatenated text below the idx-th <tag> of the output, unnormalised.
+func rawText(out, tag string, idx int) string {
 	ns, err := hx.ParseFragment(out)
 	if err != nil {
 		return ""
@@ -268,11 +342,16 @@ func rawText(out, tag string) string {
 			text(c)
 		}
 	}
+	seen := 0
 	var find func(n *html.Node) bool
 	find = func(n *html.Node) bool {
 		if n.Type == html.ElementNode && n.Data == tag {
-			text(n)
-			return true
+			if seen == idx {
+				text(n)
+				return true
+			}
+			seen++
+			return false
 		}
 		for c := n.FirstChild; c != nil; c = c.NextSibling {
 			if find(c) {
@@ -300,12 +379,22 @@ func check(c Case) error {
 		if len(pos) == 0 {
 			pos = allExprPos
 		}
-		return checkValue(c, env, pos)
+		its := c.iterations(env)
+		eng := newEngine(env, c.Text())
+		for j, it := range its {
+			if err := checkValue(c, it.env, eng, pos, j, its); err != nil {
+				if it.note != "" {
+					return fmt.Errorf("%v;%s", err, it.note)
+				}
+				return err
+			}
+		}
+		return nil
 	case "pipe":
 		if len(pos) == 0 {
 			pos = pipePos
 		}
-		return checkValue(c, env, pos)
+		return checkValue(c, env, newEngine(env, c.Text()), pos, 0, []iteration{{env: env}})
 	case "err":
 		if len(pos) == 0 {
 			pos = pipePos
@@ -382,16 +471,30 @@ func argValue(a Arg, env map[string]any) any {
 	return v
 }
 
-func checkValue(c Case, env map[string]any, pos []string) error {
+// checkValue checks the idx-th of n rendered copies: env is the model environment of that copy
+// (innermost bindings applied); eng is the case's engine, filled with the root data.
+// all lists every copy: a twin is only rendered if the model can evaluate it in all of them (one
+// template renders all copies; a twin dividing by zero in another copy would fail the render).
+func checkValue(c Case, env map[string]any, eng *engine, pos []string, idx int, all []iteration) error {
+	n := len(all)
+	validAll := func(e Expr) bool {
+		for _, it := range all {
+			if _, err := eval(e, it.env); err != nil {
+				return false
+			}
+		}
+		return true
+	}
 	src := c.Text()
 	want, known, err := expected(c, env)
 	if err != nil {
 		return err
 	}
-	eng := newEngine(env, src)
+	eng.open, eng.close = c.scopeWrap()
+	eng.idx, eng.n = idx, n
 	if c.Fam == "expr" {
 		// the twin (same shape, same length, sibling operators) goes through the same engine first
-		if tw := twin(*c.E); tw.Text() != src {
+		if tw := twin(*c.E); tw.Text() != src && validAll(tw) {
 			if tv, err := eval(tw, env); err == nil {
 				if _, u := tv.(unknown); !u {
 					for _, p := range []string{posInterp, posIf} {
@@ -424,7 +527,7 @@ func checkValue(c Case, env map[string]any, pos []string) error {
 			known bool
 		}
 		var pres []pre
-		if bt, changed := blankTwin(*c.E); changed {
+		if bt, changed := blankTwin(*c.E); changed && validAll(bt) {
 			if bv, err := eval(bt, env); err == nil {
 				_, u := bv.(unknown)
 				pres = append(pres, pre{bt.Text(), bv, !u})
@@ -637,7 +740,7 @@ func TestProp(t *testing.T) {
 	// bounded exhaustive part, sharded: every operator x operand-source pairing at depth 1,
 	// every function x parameter/argument pairing, every error kind x function
 	shard, shards := run.Shard()
-	enum := append(g.enumerate(), g.enumSigs()...)
+	enum := append(append(g.enumerate(), g.enumSigs()...), g.enumScopes()...)
 	okAll := true
 	for i, c := range enum {
 		if i%shards != shard {
